@@ -125,10 +125,26 @@ class PreprocessModel:
                 return isinstance(v, str)
             return None
 
+        def typed(typ: Any) -> Any:
+            """TypedValue(typ) with the nominal can_assign the pipeline needs for `TypedValue(str).can_assign(key)`."""
+            def can_assign(other: Any, ctx_: Any = None) -> Any:
+                k = other._kind if isinstance(other, _S) else None
+                if k == "AnyValue":
+                    return {}
+                if k == "KnownValue" and isinstance(other._attrs["val"], typ):
+                    return {}
+                if k == "TypedValue" and isinstance(other._attrs["typ"], type) and issubclass(other._attrs["typ"], typ):
+                    return {}
+                if k == "MultiValuedValue" and all(not (isinstance(r, Obj) and r._kind == "CanAssignError") for r in [can_assign(x) for x in other._attrs["vals"]]):
+                    return {}
+                return Obj("CanAssignError", message=f"cannot assign to {typ.__name__}")
+
+            return _S("TypedValue", typ=typ, can_assign=can_assign)
+
         funcs = {
             "Composite": composite, "KVPair": kvpair, "ActualArguments": actual_arguments, "unite_values": unite,
             "KnownValue": lambda a: known(a[0]),
-            "TypedValue": lambda a: _S("TypedValue", typ=a[0]),
+            "TypedValue": lambda a: typed(a[0]),
             "GenericValue": lambda a: _S("GenericValue", typ=a[0], args=tuple(a[1])),
             "SequenceValue": lambda a: _S("SequenceValue", typ=a[0], members=tuple((bool(m), x) for m, x in a[1]), args=()),
             "DictIncompleteValue": lambda a: _S("DictIncompleteValue", typ=a[0], kv_pairs=tuple(a[1]), args=()),
@@ -138,8 +154,26 @@ class PreprocessModel:
             "AnyValue": lambda a: _S("AnyValue", source=a[0] if a else None),
         }
         funcs["flatten_values"].wants_kwargs = True  # type: ignore[attr-defined]
+        K_, V_ = Sym("K"), Sym("V")
+
+        def get_tv_map(a: List[Any]) -> Any:
+            """get_tv_map(MappingValue, value, ctx) for the values this model builds: the key and value types of a dict."""
+            v = a[1]
+            if isinstance(v, _S) and v._kind == "DictIncompleteValue":
+                pairs = v._attrs["kv_pairs"]
+                if not pairs:
+                    return {K_: _S("AnyValue", source=Sym("AnySource.unreachable")), V_: _S("AnyValue", source=Sym("AnySource.unreachable"))}
+                return {K_: unite([p._attrs["key"] for p in pairs]), V_: unite([p._attrs["value"] for p in pairs])}
+            if isinstance(v, _S) and v._kind == "KnownValue" and isinstance(v._attrs["val"], dict):
+                d = v._attrs["val"]
+                if not d:
+                    return {K_: _S("AnyValue", source=Sym("AnySource.unreachable")), V_: _S("AnyValue", source=Sym("AnySource.unreachable"))}
+                return {K_: unite([known(k) for k in d]), V_: unite([known(x) for x in d.values()])}
+            return Obj("CanAssignError", message="not a mapping")
+
+        funcs["get_tv_map"] = get_tv_map
         syms = ("ARGS", "KWARGS", "ELLIPSIS", "DEFAULT", "UNKNOWN")
-        globals_ = {"NO_RETURN_VALUE": _S("MultiValuedValue", vals=())}
+        globals_ = {"NO_RETURN_VALUE": _S("MultiValuedValue", vals=()), "K": K_, "V": V_, "MappingValue": Sym("MappingValue")}
         ctx = Obj("CheckCallContext", on_error=on_error, can_assign_ctx=Opaque("ctx"), visitor=None, node=None)
         it = Interp({}, {}, syms, funcs, isinstance_hook, {}, self.module_defs, globals_)
         args: List[Tuple[Any, Any]] = []
